@@ -44,7 +44,7 @@ def main(tier):
     chk.run("R-FILTERCOVER", D.filtercover, r, s, cx.sites, floor=3)
     chk.run("R-HANDLER", GR.handler_arity, r, floor=370, control=lambda: GR.control_handler(r))
     chk.run("R-VALIDATORGUARD", V.validatorguard, r, s, floor=7, control=lambda: V.control(r))
-    chk.run("R-FIRSTCONTACT-ASSERT", V.first_contact_asserts, r, floor=1)
+    chk.run("R-FIRSTCONTACT-ASSERT", V.first_contact_asserts, r, floor=8)
     sctl = S.control(r)
     chk.run("R-STRROLE", S.strrole, r, s, floor=100, control=lambda: sctl)
     chk.run("R-FORMATARITY", S.formatarity, r, floor=100, control=lambda: sctl)
